@@ -136,6 +136,13 @@ def e2_e3(ctx, fx, U):
         for (bb, tt, ft, c) in bool_switches(fn):
             if c.kind == "call" and c.d["term"].get("name") == "contains_key" and len(c.kids) > 1 and c07.same_key(c.kids[0], out) and c07.same_key(c.kids[1], name):
                 good.append((bb, ft))
+        # `out.get(name).is_some()` / `if let Some(_) = out.get(name)`: the not-found edges of a lookup of the same name in the same map
+        fv_ = vals(fn)
+        for b3, t3 in fn.calls():
+            if t3.get("name") in ("get", "get_key_value") and t3.get("self_adt") in ("serde_json::Map", "std::collections::HashMap", "std::collections::BTreeMap", "indexmap::IndexMap"):
+                n3 = fv_.call_node(b3)
+                if len(n3.kids) > 1 and c07.same_key(n3.kids[0], out) and c07.same_key(n3.kids[1], name):
+                    good.extend(success_edges(fn, n3)[1])
         recv = peel(out)
         okc = bool(good) and guarded(fn, b, good)
         if okc and recv.kind == "param":
